@@ -328,6 +328,12 @@ pub fn contexts() -> Vec<Ctx> {
         Ctx { name: "□\\K", pre: 0, build: |h, _| cat(vec![h, KeepOut]) },
         Ctx { name: "a\\K□", pre: 0, build: |h, _| cat(vec![Lit('a'), KeepOut, h]) },
         Ctx { name: "(a)?□", pre: 1, build: |h, _| cat(vec![Repeat(bx(g(Lit('a'))), 0, Some(1), Q::Greedy), h]) },
+        // continuations that depend on the capture state the hole leaves behind (first group inside the hole)
+        Ctx { name: "(?>□)(?!\\1)", pre: 0, build: |h, g0| cat(vec![Atomic(bx(h)), Look(bx(Backref(g0 + 1)), false, true)]) },
+        Ctx { name: "(?>□)\\1", pre: 0, build: |h, g0| cat(vec![Atomic(bx(h)), Backref(g0 + 1)]) },
+        Ctx { name: "(?:□)(?!\\1)", pre: 0, build: |h, g0| cat(vec![h, Look(bx(Backref(g0 + 1)), false, true)]) },
+        Ctx { name: "(?=□)(?!\\1)a", pre: 0, build: |h, g0| cat(vec![Look(bx(h), false, false), Look(bx(Backref(g0 + 1)), false, true), Lit('a')]) },
+        Ctx { name: "(?:□)+?(?!\\1)b", pre: 0, build: |h, g0| if h.repeatable() { cat(vec![Repeat(bx(h), 1, None, Q::Lazy), Look(bx(Backref(g0 + 1)), false, true), Lit('b')]) } else { h } },
         Ctx { name: ".*□", pre: 0, build: |h, _| cat(vec![Repeat(bx(Any), 0, None, Q::Greedy), h]) },
         Ctx { name: ".*?□", pre: 0, build: |h, _| cat(vec![Repeat(bx(Any), 0, None, Q::Lazy), h]) },
     ]
@@ -404,6 +410,10 @@ pub fn fillers() -> Vec<Filler> {
         Filler { build: |_| Repeat(bx(g(Alt(vec![Lit('a'), Lit('b')]))), 1, None, Q::Greedy) },
         Filler { build: |_| Alt(vec![g(Lit('a')), Lit('b')]) },
         Filler { build: |_| Alt(vec![g(Lit('a')), g(Lit('b'))]) },
+        Filler { build: |_| Alt(vec![g(Lit('a')), Lit('a')]) },
+        Filler { build: |_| Alt(vec![Lit('a'), g(Lit('a'))]) },
+        Filler { build: |_| Alt(vec![Concat(vec![g(Lit('a')), Look(bx(Any), false, false)]), Lit('a')]) },
+        Filler { build: |_| Alt(vec![Concat(vec![g(Lit('a')), Look(bx(Lit('b')), false, true)]), Lit('a')]) },
         Filler { build: |g0| Concat(vec![g(Lit('a')), Backref(g0 + 1)]) },
         Filler { build: |g0| Concat(vec![g(Alt(vec![Lit('a'), ab()])), Backref(g0 + 1)]) },
         Filler { build: |g0| Concat(vec![g(Repeat(bx(Any), 0, None, Q::Greedy)), Backref(g0 + 1)]) },
